@@ -326,6 +326,7 @@ def _far_checks(fn, res_local):
     success edges of every switch on the discriminant of an alias of res_local anywhere in the function."""
     blocks = fn["blocks"]
     aliases = {res_local}
+    packed = set()  # (tuple local, field) holding the result: `let (res, flag) = { let res = f(); (res, x) };`
     changed = True
     while changed:
         changed = False
@@ -333,10 +334,24 @@ def _far_checks(fn, res_local):
             if b["cleanup"]:
                 continue
             for st in b["st"]:
-                if st["k"] == "assign" and st["rv"]["r"] == "use" and not st["dst"]["p"] and st["dst"]["l"] != 0:
-                    if local_of(st["rv"]["a"]) in aliases and st["dst"]["l"] not in aliases:
+                if st["k"] != "assign" or st["dst"]["p"] or st["dst"]["l"] == 0:
+                    continue
+                rv = st["rv"]
+                if rv["r"] == "use":
+                    if local_of(rv["a"]) in aliases and st["dst"]["l"] not in aliases:
                         aliases.add(st["dst"]["l"])
                         changed = True
+                    a = rv["a"]
+                    if a.get("k") in ("copy", "move"):
+                        pj = [p_ for p_ in a["pl"]["p"] if p_ != "*"]
+                        if len(pj) == 1 and isinstance(pj[0], dict) and (a["pl"]["l"], pj[0].get("f")) in packed and st["dst"]["l"] not in aliases:
+                            aliases.add(st["dst"]["l"])
+                            changed = True
+                elif rv["r"] == "agg" and rv.get("tuple"):
+                    for i, o in enumerate(rv.get("ops", [])):
+                        if local_of(o) in aliases and (st["dst"]["l"], str(i)) not in packed:
+                            packed.add((st["dst"]["l"], str(i)))
+                            changed = True
     edges = []
     live = live_blocks(fn)
     for bi, b in enumerate(blocks):
